@@ -55,5 +55,13 @@ pub mod userty {
     pub mod deep {
         pub struct Bar<T>(pub T);
     }
+    pub mod vec { pub struct Vec<T>(pub T, pub u8); }
 }
+// user types whose paths look like the standard ones
+pub mod vec { pub struct Vec<T>(pub T, pub u8); }
+pub mod string { pub struct String(pub u8); }
+pub mod boxed { pub struct Box<T>(pub T, pub u8); }
+pub mod option { pub struct Option<T>(pub T, pub u8); }
+pub mod result { pub struct Result<T>(pub T, pub u8); }
+pub mod alloc { pub mod vec { pub struct Vec<T>(pub T, pub u8); } }
 pub mod catalogue;
